@@ -50,7 +50,7 @@ Inductive ty :=
 | Atomic                                             (* time.Time *)
 | Other (k : okind) (id : Z).
 
-Definition fld := (Z * bool * ty)%type.
+Notation fld := (Z * bool * ty)%type (only parsing).
 Definition fname (f : fld) : Z := fst (fst f).
 Definition fexp (f : fld) : bool := snd (fst f).
 Definition ftyp (f : fld) : ty := snd f.
